@@ -239,11 +239,11 @@ type PipeCase struct {
 
 type synthFilter struct{ f PF }
 
-func (s synthFilter) ID() writer.FilterID                { return writer.FilterID(s.f.ID) }
-func (s synthFilter) Name() string                       { return s.f.Name.String() }
-func (s synthFilter) Apply(d []byte) ([]byte, error)     { return d, nil }
-func (s synthFilter) Remove(d []byte) ([]byte, error)    { return d, nil }
-func (s synthFilter) Encode() (uint16, []uint32)         { return s.f.Flags, s.f.CD }
+func (s synthFilter) ID() writer.FilterID             { return writer.FilterID(s.f.ID) }
+func (s synthFilter) Name() string                    { return s.f.Name.String() }
+func (s synthFilter) Apply(d []byte) ([]byte, error)  { return d, nil }
+func (s synthFilter) Remove(d []byte) ([]byte, error) { return d, nil }
+func (s synthFilter) Encode() (uint16, []uint32)      { return s.f.Flags, s.f.CD }
 
 func (f PF) filter() writer.Filter {
 	switch f.Builtin {
